@@ -56,12 +56,17 @@ class Space3(c01.Space):
 
         yield {'ent': ename, 'cls': 'none', 'detail': 'conforming', 'text': self.bad_file(good), 'bad': None}
         # parameter count
+        # (an empty value for a trailing OPTIONAL attribute is accepted by design - property C15 - and a
+        #  missing required INTEGER/REAL/NUMBER/STRING is substituted in lenient mode: too-few cases are
+        #  generated only when the last attribute is required, and are read in strict mode)
+        last_required = bool(pa) and not pa[-1][1].optional and not pa[-1][2]
         for k in range(len(base)):
-            yield case('too-few-params', 'remove@%d' % k, mk(base[:k] + base[k + 1:]), k)
+            if last_required:
+                yield dict(case('too-few-params', 'remove@%d' % k, mk(base[:k] + base[k + 1:]), k), strict=True)
         for k in range(len(base) + 1):
             yield case('too-many-params', 'add@%d' % k, mk(base[:k] + ['7'] + base[k:]), min(k, len(base) - 1))
-        if base:
-            yield case('too-few-params', 'none', '#10=%s();' % E, 0)
+        if base and last_required:
+            yield dict(case('too-few-params', 'none', '#10=%s();' % E, 0), strict=True)
         for k, (owner, a, redecl) in enumerate(pa):
             tk = a.type.key()
             if redecl:
@@ -145,6 +150,36 @@ class Space3(c01.Space):
                         p = list(base)
                         p[k] = lit
                         yield case('select-outside-list', '%s<-#%s' % (tk, cand), mk(p), k)
+        # the same classes inside the parts of an externally mapped instance
+        order = s.ancestors_ordered(ename)
+        if len(order) > 1:
+            ents = s.tmap()[1]
+            redecl = set((d.redeclares, d.name) for n in order for d in ents[n].derived if d.redeclares)
+            defaults = {n: ['*' if (n, a.name) in redecl else self.lits.alts(a.type, short=True)[0] for a in ents[n].attrs] for n in order}
+            mkc = lambda vals: '#10=(%s);' % ''.join('%s(%s)' % (n.upper(), ','.join(vals[n])) for n in sorted(vals))
+            yield {'ent': ename, 'cls': 'none', 'detail': 'conforming-complex', 'text': self.bad_file(mkc(defaults)), 'bad': None, 'complex': True}
+            for n in order:
+                for k, a in enumerate(ents[n].attrs):
+                    if (n, a.name) in redecl:
+                        continue
+                    if not ents[n].attrs[-1].optional:
+                        v = {m: list(x) for m, x in defaults.items()}
+                        del v[n][k]
+                        yield dict(case('too-few-params', 'complex-part', mkc(v)), complex=True, strict=True)
+                    v = {m: list(x) for m, x in defaults.items()}
+                    v[n].insert(k, '7')
+                    yield dict(case('too-many-params', 'complex-part', mkc(v)), complex=True)
+                    ok = own_kind(s, a.type)
+                    if ok is not None:
+                        for lk, lit in WRONG.items():
+                            if lk in ok:
+                                continue
+                            v = {m: list(x) for m, x in defaults.items()}
+                            v[n][k] = lit
+                            yield dict(case('wrong-literal-kind', 'complex-part:%s<-%s' % (a.type.key(), lk), mkc(v)), complex=True)
+            v = {m: list(x) for m, x in defaults.items()}
+            v['nosuch'] = ['7']
+            yield dict(case('unknown-entity', 'complex-part', mkc(v)), complex=True)
         # entity keyword
         yield case('unknown-entity', 'NOSUCH', '#10=NOSUCH(%s);' % ','.join(base))
         # duplicate id
@@ -336,11 +371,11 @@ def main():
         badbase = set()
         for c, r in zip(cases, results):
             if c['cls'] == 'none' and ('crash' in r or r['esev'] < 2):
-                badbase.add(c['ent'])
-        chk.extra.setdefault('entities_with_failing_base', {})[fam.name] = sorted(badbase)
+                badbase.add((c['ent'], bool(c.get('complex'))))
+        chk.extra.setdefault('entities_with_failing_base', {})[fam.name] = sorted('%s%s' % (e, '(complex)' if cx else '') for e, cx in badbase)
         todo_p21read = []
         for c, r in zip(cases, results):
-            if c['ent'] in badbase:
+            if (c['ent'], bool(c.get('complex'))) in badbase:
                 continue
             chk.count(states=1, transitions=1)
             chk.cls(c['cls'])
@@ -355,7 +390,7 @@ def main():
                 chk.outcome(kp.split('/')[0])
                 chk.violation('%s/%s' % (PID, kp), what, dict(c))
         # the reference tool must exit non-zero on every rejected file
-        rcs = common.tmap(lambda c: p21run.p21read(lib, c['text'])[0], todo_p21read)
+        rcs = common.tmap(lambda c: p21run.p21read(lib, c['text'], strict=bool(c.get('strict')))[0], todo_p21read)
         for c, rc in zip(todo_p21read, rcs):
             chk.count(transitions=1)
             chk.outcome('p21read-exit-%s' % rc)
